@@ -113,6 +113,17 @@ CHECKS = {
         "line/column)",
         "ref": "DESIGN.md 4 C13",
     },
+    "C15": {
+        "level": "Hypothesis-generated histories of parser creation (7 optimizer configurations, fixed and generated "
+        "grammars), code generation and parsing executed in one process and compared, operation by operation, "
+        "with fresh-process reference results; seeded thread schedules owned by a sys.monitoring LINE-event "
+        "cooperative scheduler compared with sequential results; free-running stress as a supplement.",
+        "note": "Trusted: fresh forked children of a pristine driver as the isolation reference. Races inside a "
+        "single source line or inside the C regex module are out of reach.",
+        "technique": "Hypothesis-generated operation histories with an isolation oracle + owned (seeded, "
+        "replayable) thread schedules",
+        "ref": "DESIGN.md 4 C15",
+    },
     "C16": {
         "level": "Metamorphic search: generated SOI-free grammars, every k in 0..len for texts <= 12 characters, "
         "four modes: parse at start_pos k vs parse of the suffix (shifted), and invariance under replacing "
